@@ -13,7 +13,7 @@ def subsets(xs):
 
 import os, time
 # ports of this process (observation sockets are bound on them; concurrent checks must not collide)
-PBASE = 26000 + ((int(time.time()) * 13 + os.getpid() * 7) % 18000)
+PBASE = 24000 + ((int(time.time()) * 13 + os.getpid() * 7) % 1990)     # below the kernel's ephemeral port range
 PORTS = {"5080": str(PBASE), "6090": str(PBASE + 1), "5060": str(PBASE + 2), "5070": str(PBASE + 3)}
 
 def case(proto, port, hosts, steps, disp=None):
